@@ -6,6 +6,7 @@
 //!   read side : file length 0..=13 x chunk size {1,2,3,4,5,8} x window size {1,2,3,4} x every sequence of 0..=5 operations over
 //!               {fill, remove(1), remove(2), remove(len), remove(len+1)}
 //!   write side: window size {1,2,3} x every sequence of 0..=6 operations over {add(3 bytes), add(0 bytes), add(5 bytes), empty}
+//!   mixed     : six scripted add / remove / empty histories in which the ring buffer wraps, incl. windows of 1100 and 2050 pieces
 //! exit 1 with a COUNTEREXAMPLE line on a violation.
 use std::collections::VecDeque;
 use std::fs::File;
@@ -149,6 +150,48 @@ fn main() {
                     }
                 }
             }
+        }
+    }
+    // ---- mixed histories (the ring buffer wraps when pieces are removed from the front and more are added) and large windows
+    let path = dir.join("m.bin");
+    let scripts: Vec<(u16, Vec<i32>)> = vec![
+        // > 0: add a piece of that many bytes, < 0: remove(-k), 0: empty
+        (3, vec![4, 4, 4, -2, 4, 2, 0]),
+        (4, vec![1, 2, 3, 4, -3, 5, 6, 7, 0, 1, 0]),
+        (5, vec![3, 3, 3, 3, 3, -4, 3, 3, 3, 3, -1, 2, 0]),
+        (8, vec![8, 8, 8, 8, 8, 8, 8, 8, -5, 1, 2, 3, 4, 5, -2, 6, 7, 0]),
+        (1100, std::iter::repeat(8).take(1100).chain(std::iter::once(0)).collect()),
+        (2050, std::iter::repeat(3).take(2050).chain([-1025, 0]).collect()),
+    ];
+    for (size, script) in scripts {
+        cases += 1;
+        let mut w = Window::new(size, 8, File::create(&path).unwrap());
+        let mut buffered: VecDeque<Vec<u8>> = VecDeque::new();
+        let mut stored: Vec<u8> = Vec::new();
+        let mut n = 0u8;
+        for (step, op) in script.iter().enumerate() {
+            let ctx = format!("window size {size}, step {} of the script {:?}", step + 1, if script.len() > 24 { &script[script.len() - 6..] } else { &script[..] });
+            if *op > 0 {
+                n = n.wrapping_add(1);
+                let piece = vec![n; *op as usize];
+                let want = (buffered.len() as u16) < size;
+                if want { buffered.push_back(piece.clone()); }
+                if w.add(piece).is_ok() != want { fail(format!("{ctx}: add returned the wrong result")); }
+            } else if *op < 0 {
+                let k = (-*op) as u16;
+                let want = k as usize <= buffered.len();
+                if want { for _ in 0..k { buffered.pop_front(); } }
+                if w.remove(k).is_ok() != want { fail(format!("{ctx}: remove({k}) returned the wrong result")); }
+            } else {
+                if let Err(e) = w.empty() { fail(format!("{ctx}: empty failed: {e}")); }
+                for p in buffered.drain(..) { stored.extend_from_slice(&p); }
+                let on_disk = std::fs::read(&path).unwrap();
+                if on_disk != stored {
+                    fail(format!("{ctx}: after empty the file holds {} bytes, the {} buffered pieces amount to {} bytes (first difference at {:?})",
+                                 on_disk.len(), "previously", stored.len(), on_disk.iter().zip(stored.iter()).position(|(a, b)| a != b)));
+                }
+            }
+            if w.get_elements() != &buffered { fail(format!("{ctx}: buffer differs from the specification")); }
         }
     }
     let _ = std::fs::remove_dir_all(&dir);
